@@ -22,6 +22,10 @@ type Inst struct {
 	ReturnLast     bool   `json:"return_last,omitempty"`
 	MaxDuration    string `json:"max_duration,omitempty"` // "" | "1ns" (always exceeded after the first failure) | "1h"
 
+	// CancelInScheduled: the OnRetryScheduled listener cancels the execution's context (a cancellation that lands exactly
+	// between the decision to retry and the start of the retry)
+	CancelInScheduled bool `json:"cancel_in_scheduled,omitempty"`
+
 	// breaker (virtual clock)
 	CB        cbmodel.Config `json:"cb,omitempty"`
 	DelayFunc bool           `json:"delay_func,omitempty"` // LastResult()==3 -> 5ns, else no opinion
@@ -67,6 +71,9 @@ func (in Inst) String() string {
 		}
 		if in.MaxDuration != "" {
 			s += " dur=" + in.MaxDuration
+		}
+		if in.CancelInScheduled {
+			s += " cancel-in-scheduled"
 		}
 		return s + "}"
 	case "breaker":
